@@ -106,7 +106,7 @@ struct Core {
     vh::Rng *r = nullptr;
     std::vector<Ent> e;
     std::string fam;            // key prefix: "timer" | "pool"
-    uint64_t pass_now = 0, pass_no = 0;
+    uint64_t pass_now = 0, pass_no = 0, base = 0;   // base: clock value the script started with (the log is relative to it)
     bool in_pass = false, failed = false;
     bool record = true;
     std::string log;
@@ -126,8 +126,9 @@ struct Core {
         if (failed) return;
         failed = true;
         vh::st().case_desc = lazy_desc ? lazy_desc() : log;
-        vh::viol(key, detail);
+        vh::viol(key_filter ? key_filter(key) : key, detail);
     }
+    std::function<std::string(const std::string &)> key_filter;
 
     int armed_count() const { int n = 0; for (auto &x : e) n += x.armed; return n; }
     bool min_deadline(uint64_t &m) const {
@@ -415,7 +416,8 @@ struct TimerWorld : Core {
             fail("timer/callback/after-destroy-or-cancel", vh::fmt("callback of a destroyed timer object (slot %d) at clock=%llu", j, (unsigned long long)g_clock));
             return;
         }
-        if (record) note(vh::fmt("<fire#%d@%llu>", j, (unsigned long long)(g_clock - 0)));
+        if (record) note(vh::fmt("<fire#%d@+%llu>", j, (unsigned long long)(g_clock - base)));
+        CNT("timer_event_callbacks");
         if (!fire_oracle(j, "timer")) return;
         bool en = ev[j]->isEnabled();
         if (en != e[j].armed) {
@@ -565,6 +567,7 @@ void timer_random_case(uint64_t idx, vh::Rng &r) {
     w.setup((idx & 1) == 0, nslots);
     g_clock = pick_t0(r);
     uint64_t t0 = g_clock;
+    w.base = t0;
     w.palette = pick_palette(r);
     w.cb_rate = (int)r.below(4);
     bool forever = r.chance(1, 2);
@@ -673,9 +676,12 @@ struct PoolWorld : Core {
         lb.make(epoll);
         pool = new TimerPool(lb.loop);
         e.reserve(256); tok.reserve(256);
-        missed_key = [this](int i) {
-            if (token_reissued) return std::string("pool/missed/live-timer-lost-after-cleanup-reissued-its-token");
-            return std::string(e[i].persist ? "pool/missed/persistent-period-skipped" : "pool/missed/oneshot-due-not-fired");
+        // Once the pool has handed out a token equal to one it issued before (observed at the API boundary), two timers answer
+        // to one token and every later symptom (a live timer that stops firing, fires out of turn, or a loop that sleeps past it)
+        // has that one cause: they are reported under one key that names the history shape.
+        key_filter = [this](const std::string &k) {
+            if (token_reissued) return std::string("pool/live-timer-lost-after-cleanup-reissued-its-token");
+            return k;
         };
     }
 
@@ -728,7 +734,8 @@ struct PoolWorld : Core {
 
     void on_fire(int i) {
         if (failed) { if (++after_fail > 20000) throw AbortCase(); return; }
-        if (record) note(vh::fmt("<fire#%d>", i));
+        if (record) note(vh::fmt("<fire#%d@+%llu>", i, (unsigned long long)(g_clock - base)));
+        if (e[i].persist) CNT("pool_doEvery_callbacks"); else CNT("pool_doAfter_callbacks");
         if (!fire_oracle(i, "pool timer")) return;
         if (!e[i].persist) e[i].exists = false;   // its token is stale once the callback has returned
         firing = i;
@@ -805,6 +812,7 @@ void pool_random_case(uint64_t idx, vh::Rng &r) {
     w.setup((idx & 1) == 0);
     g_clock = pick_t0(r);
     uint64_t t0 = g_clock;
+    w.base = t0;
     w.palette = pick_palette(r);
     w.cb_rate = (int)r.below(4);
     bool forever = r.chance(1, 2);
